@@ -9,20 +9,20 @@ HERE = os.path.dirname(os.path.abspath(__file__))
 CLAIMED = {
     'C01': ('who-may-call / argument discipline on the single text primitive (_put_src must offset unless the receiver is not derived from '
             'the target); flow-sensitive must-be-bistr dataflow for every value stored into or adopted as a live line list; table '
-            'exhaustiveness of put handlers and of the syntax-order child table against the grammar',
+            'exhaustiveness of put handlers and of the syntax-order child table against the grammar; interprocedural def-use of the expression-context argument on every call path from the handlers of context-inheriting positions (Starred.value, Tuple.elts, List.elts) to the node constructor',
             'Static: decides four disciplines without which text and tree cannot stay in step: every splice of a live tree offsets '
             'positions, every live source line is a byte-indexable bistr, every grammar position has a working put path, and every '
-            'child is enumerated (in order) by the offset / flush / make / unmake walks. Re-parse equality itself is value-level '
+            'child is enumerated (in order) by the offset / flush / make / unmake walks; plus: a child put into a position that inherits its container\'s expression context gets that context from the tree, not from a constant. Re-parse equality itself is value-level '
             'and not decided.',
             'Trusts derivation of receivers from `self` (sa/effects.py) and the two reviewed no-offset sites in sa/rules/c01.py.',
             'DESIGN.md §2 C01'),
     'C02': ('typestate of the per-node memo around every position store (memo-empty / pending-flush, element vs container flushes, '
             'rebinding), must-reach re-index after child-list surgery and field/index agreement of every parent link, single-memo '
-            'attribute discipline, dominance of view index refresh, dominance of the memo clear over the early exits of the offset walk',
+            'attribute discipline, dominance of view index refresh, dominance of the memo clear over the early exits of the offset walk; must-pass obligation (per-function CFG, handed up the caller chains) from every re-indentation of docstring-bearing lines of a live tree to the re-evaluation of docstring values',
             'Static: decides the "no stale cached answer / no stale link" discipline: a node whose position is written is flushed '
             '(or provably has an empty memo), shifted siblings are re-indexed with the right field and index, there is exactly one '
             'memo and it is cleared wholesale and unconditionally, views re-clip before using raw indices, the offset walk flushes what '
-            'it visits, non-offsetting splices flush all ancestors. Equality of query answers with a fresh parse is value-level and '
+            'it visits, non-offsetting splices flush all ancestors, re-indented docstrings get their values re-evaluated before the edit returns. Equality of query answers with a fresh parse is value-level and '
             'not decided; a position-driven range flush is accepted as covering.',
             'Trusts the flush-family tables and the 2 + 3 reviewed sites in sa/rules/c02.py.',
             'DESIGN.md §2 C02'),
@@ -59,11 +59,11 @@ CLAIMED = {
     'C05': ('mode-registry agreement (Mode literals / parse table / code_as table / leaf classes); wrapper-template analysis: each '
             'f-string template is parsed by the stdlib parser with a placeholder and with a library of generic escape / continuation '
             'probes, yielding which fields of the wrapper node text at {src} can populate or alter; read-set comparison per parser; '
-            'line fix-up arithmetic against the number of newlines before {src}',
+            'line fix-up arithmetic against the number of newlines before {src}; statically evaluated result-type table vs parser table (a class mode whose parser serves another mode too has its result type registered) and the isinstance guard of both consumers',
             'Static: decides for all 45 wrapper templates that the line fix-ups agree with the template and that every field of the '
             'wrapper construct which source text can reach (extra call arguments, a grown placeholder, a return annotation, a guard, '
             '...) is inspected by the parser, i.e. the wrapper cannot silently absorb or drop part of the source; plus registry '
-            'agreement for all modes. Position equality for arbitrary (multi-byte / commented / continued) fragments is not decided.',
+            'agreement for all modes, and a class mode served by a shared parser is narrowed to its class or rejected. Position equality for arbitrary (multi-byte / commented / continued) fragments is not decided.',
             'Trusts the probe library in sa/rules/c05.py (generic Python fragments) to cover the ways text can continue into or escape '
             'from a syntactic position; parsing template constants with the stdlib parser is analysis of constants, not execution of pfst.',
             'DESIGN.md §2 C05'),
@@ -79,10 +79,10 @@ CLAIMED = {
             'DESIGN.md §2 C15'),
     'C10': ('dominance of every target mutation in fst_raw.py by the parse of the complete new text (CFG must-pass-through); '
             'validate-then-mutate analysis (as C12) with parser entry points as rejecting calls and return-value-correlated '
-            'callee effects; lock / attachment-point checks of the raw entry points; who-may-pass check on the scratch line list the reparse writes into before parsing',
+            'callee effects; lock / attachment-point checks of the raw entry points; who-may-pass check on the scratch line list the reparse writes into before parsing; table coverage of the fields grafted after a header-only reparse (statically evaluated) against the block-list fields of the grammar table',
             'Static, atomicity ordering only: every modification of the live tree by the raw reparse comes after the parse that '
             'can reject the text, nothing can reject afterwards, raw reparse always runs under the raw modification lock and '
-            'attaches new nodes only through _set_ast / root line replacement (root identity), and the list it scribbles on before parsing is never the live line list. Whether the incremental reparse '
+            'attaches new nodes only through _set_ast / root line replacement (root identity), the list it scribbles on before parsing is never the live line list, and a header-only reparse carries over every block field it did not see. Whether the incremental reparse '
             'equals a from-scratch parse is value-level and NOT decided (the property text itself records disagreements).',
             'Trusts parser naming (fromsrc / parse_*), tree-derivation conventions of sa/effects.py.',
             'DESIGN.md §2 C10'),
